@@ -59,6 +59,12 @@ func (seq *Sequence) Release() error {
 	seq.Lock()
 	defer seq.Unlock()
 
+	// nothing is leased (e.g. Next was never called): writing next back would roll the stored value back
+	// and numbers that were already handed out by earlier sequence objects would be reused.
+	if seq.next >= seq.reserved {
+		return nil
+	}
+
 	var buf [8]byte
 	binary.BigEndian.PutUint64(buf[:], seq.next)
 	if err := seq.store.Set(seq.key, buf[:]); err != nil {
